@@ -3,7 +3,7 @@ CHECK = {
         suite("set", "c02", 300, 6000, stdin=True, args=["-suite", "set"], timeout={"quick": 300, "thorough": 900}),
         suite("batch", "c02", 120, 900, stdin=True, args=["-suite", "batch"], timeout={"quick": 300, "thorough": 900}),
     ],
-    "lean_sources": ["ClusterVerif/Model/C02.lean", "ClusterVerif/Spec/C02.lean"],
+    "lean_sources": ["ClusterVerif/Model/C02.lean", "ClusterVerif/Spec/C02.lean", "ClusterVerif/Lemmas/C02.lean"],
     "rule": "set: 2-3 real go-ds-crdt replicas, 2-12 puts/deletes/batches over 1-3 keys with scripted deliveries (old, repeated, newest-first) "
             "and a final full exchange; batch: one real crdt.Consensus with batching disabled / size 1,2,3,5 / age 60ms, queue 1-4 or 50, "
             "bursts against a worker held inside Commit, one injected datastore write failure per case; non-trivial = at least one delta / one "
